@@ -120,6 +120,9 @@ func TestProposalBudgets(t *testing.T) {
 			opts.MinTxs = 0
 			if k.Committee.IsInElectionPeriod() {
 				opts.MinTxs = 2
+				if drain && k.Committee.IsProposalAllowed(k.Height) {
+					opts.MinTxs = 5
+				}
 			}
 			m.observeBefore()
 			for _, mb := range k.Committee.GetCurrentMembers() {
@@ -305,7 +308,7 @@ func tune(g *statekit.Gen, base map[string]int, prof statekit.Profile, h uint32,
 			g.Kinds["proposal"] = base["proposal"]
 		}
 		if drain {
-			g.Kinds["proposal"] = base["proposal"] * 8
+			g.Kinds["proposal"] = base["proposal"] * 24
 		}
 		g.Kinds["review"] = base["review"] * (1 + 10*minInt(registered, 3))
 		g.Kinds["tracking"] = base["tracking"] * (1 + 3*minInt(agreed, 2))
